@@ -229,7 +229,7 @@ func runLim(c LimCase, cs *kit.CaseStats) error {
 							r.err = err
 							continue
 						}
-						s.SetDeadline(time.Now().Add(3 * closeWatchdog))
+						s.SetDeadline(time.Now().Add(2 * closeWatchdog))
 						streams[k] = s
 						r.err = s.WriteID(objs[k])
 					}
@@ -270,7 +270,7 @@ func runLim(c LimCase, cs *kit.CaseStats) error {
 						return
 					}
 					defer s.Close()
-					s.SetDeadline(time.Now().Add(3 * closeWatchdog))
+					s.SetDeadline(time.Now().Add(2 * closeWatchdog))
 					if c.Order == 0 {
 						connMu[r.peer].Lock()
 					}
@@ -301,15 +301,18 @@ func runLim(c LimCase, cs *kit.CaseStats) error {
 		}, closeWatchdog)
 		snap := gate.Snapshot()
 		if !reached {
-			stacks := p2px.ClipStacks(p2px.StacksWith("coreutils/syncer."), 16)
+			stacks := p2px.ClipStacks(p2px.StacksWith("syncer.(*Syncer).runPeer", "syncer.(*Syncer).handleRPC"), 16)
 			gate.Open()
+			for _, conn := range conns {
+				conn.Close() // abort the stuck requests
+			}
 			wg.Wait()
 			if int(written.Load()) < total {
 				cs.Inconclusive("client-writes-incomplete")
 				return nil
 			}
-			return fmt.Errorf("burst %d: with the handlers held, the expected number of concurrent handlers per subnet %v was not reached within %v (now %v): a slot was not returned by an earlier handler or drop. limits per-peer=%d per-subnet=%d, burst sizes %v\nsyncer goroutines:\n%s",
-				b, expect, closeWatchdog, snap.Cur, c.PerPeer, c.PerSubnet, n, stacks)
+			return fmt.Errorf("burst %d: with the handlers held, the expected number of concurrent handlers per subnet %v was not reached within %v although all %d requests were written (now %v): either a slot was not returned by an earlier handler or drop, or admitted handlers cannot make progress while the per-peer limit holds back the next stream (see the stacks). limits per-peer=%d per-subnet=%d, burst sizes %v, request layout %d\nsyncer goroutines:\n%s",
+				b, expect, closeWatchdog, total, snap.Cur, c.PerPeer, c.PerSubnet, n, c.Order, stacks)
 		}
 		p2px.Pause(c.HoldUS)
 		gate.Open()
